@@ -798,13 +798,24 @@ class BaseRepo:
 
         if determine_wants is None:
             determine_wants = target.object_store.determine_wants_all
+        graph_walker = target.get_graph_walker()
+        # The target's shallow boundary may only move once the objects behind
+        # it are in its store: record the update requested during negotiation
+        # and apply it after the pack is installed, as the network clients do.
+        apply_shallow = graph_walker.update_shallow
+        pending_shallow: list[tuple[set[ObjectID] | None, set[ObjectID] | None]] = []
+        graph_walker.update_shallow = lambda new_shallow, unshallow: (
+            pending_shallow.append((new_shallow, unshallow))
+        )
         count, pack_data = self.fetch_pack_data(
             determine_wants,
-            target.get_graph_walker(),
+            graph_walker,
             progress=progress,
             depth=depth,
         )
         target.object_store.add_pack_data(count, pack_data, progress)
+        for new_shallow, unshallow in pending_shallow:
+            apply_shallow(new_shallow, unshallow)
         return self.get_refs()
 
     def fetch_pack_data(
